@@ -134,6 +134,7 @@ def check_apply(run, fx, ev):
                 for even in (True, False):
                     want = spec_apply(vname(um), exact, cmp, even)
                     got = None
+                    foreign = None
                     for dec, res, _ in paths:
                         okp = True
                         for cond, choice in dec:
@@ -148,10 +149,18 @@ def check_apply(run, fx, ev):
                                 okp &= (choice == even)
                             else:
                                 okp = False
+                                foreign = cond
                         if okp:
                             got = leaf_of(res)
                             break
                     key = "%s/exact=%s/cmp=%s/even=%s" % (vname(um), exact, cmp, even)
+                    if got is None and foreign is not None:
+                        # the procedure decides on something that is none of the three atoms this table knows by name (renamed
+                        # trait methods, a restructured test): the table is not decided; the end-to-end value rule
+                        # R12.round-number-to-increment does not depend on names
+                        run.ok(rule, key, "decides on `%s`, not one of is_exact / compare_remainder / is_even_cardinal: not decided"
+                               % foreign[:60], f.loc, nontrivial=False)
+                        continue
                     run.check(got == want, rule, key, "-> %s" % got,
                               "apply(%s) with exact=%s cmp=%s even=%s returns %s, specification returns %s" %
                               (vname(um), exact, cmp, even, got, want), f.loc)
